@@ -56,6 +56,7 @@ def run(ctx):
         hists += ctx.generate(g3, simulate=400, depth=11)
     hists = [fc.observers(rng, fc.PATHS, [fc.norm_op(op, rng) for op in h], 0.15) for h in hists]
     hists += fc.random_scripts(rng, 600 if ctx.thorough else 80, 12, WEIGHTS)
+    hists = fc.finding_scripts("C21") + hists
     fc.drive_and_judge(ctx, hists, nontrivial, mutate, ["C21"])
     ctx.rule = ("executions = one TLC witness history per (namespace state incl. link records, last operation) to depth %d "
                 "over 5 paths x 2 link ids that contains a link (sampled in the quick tier; thorough adds random walks of "
